@@ -294,8 +294,8 @@ func (g *G) genWait(f *FlowSpec, cats []J) J {
 	if f.Type == "voice" && t.Chance("dialwait", 1, 3) {
 		w := J{"type": "dial", "phone": []string{"+12065551234", "@fields.nick", "@contact.urn", "0788123123"}[t.Pick("dialphone", 4)]}
 		if t.Chance("diallimits", 1, 3) {
-			w["dial_limit_seconds"] = 30
-			w["call_limit_seconds"] = 600
+			w["dial_limit_seconds"] = []int{30, 0, 1, 86400}[t.Weighted("diallimit", 3, 1, 1, 1)]
+			w["call_limit_seconds"] = []int{600, 0, 1, 7200}[t.Weighted("calllimit", 3, 1, 1, 1)]
 		}
 		return w
 	}
